@@ -1421,7 +1421,10 @@ impl<R: std::io::Read> std::io::Read for SignGenerator<'_, R> {
                     return Ok(0);
                 }
                 State::Error => {
-                    panic!("inconsistent state, panicked before");
+                    // a previous call failed (the state is left as `Error`), keep failing
+                    return Err(std::io::Error::other(
+                        "inconsistent state, a previous read failed",
+                    ));
                 }
                 State::Ops {
                     mut ops,
